@@ -562,7 +562,10 @@ impl<C: ContentAddrStore> SealedState<C> {
             .keys()
             .map(|k| self.0.stakes.votes(my_epoch, *k))
             .sum();
-        if total_votes > present_votes / 2 * 3 {
+        // confirmed iff the signers hold strictly more than two thirds of the votes: 3 * present > 2 * total,
+        // i.e. present > floor(2 * total / 3), computed without overflowing u128
+        let two_thirds = total_votes / 3 * 2 + total_votes % 3 * 2 / 3;
+        if present_votes > two_thirds {
             Some(ConfirmedState {
                 state: self.clone(),
                 cproof,
